@@ -21,6 +21,7 @@ type procKey struct {
 	input    string
 	pollutes bool // assigns through a method name / increments a method (process-level state)
 	methods  bool // calls methods
+	first    bool // run before anything else in every second process (what a process does first may seed a memo)
 }
 
 func obsHash(parts ...[]byte) string {
@@ -114,6 +115,8 @@ var c10BuiltinVictims = []string{
 	`{ print num("3") * 2 }`,
 }
 
+const c10FillProgram = `{ t = []; t[$.slot] = $.n; print t.length() }`
+
 var c10ResultAssigners = []string{
 	`{ (($.n == 0))--; x = ($.n == 0); print x }`,
 	`BEGIN { n = 0; (n == 0)--; (n != 0)++; (!n)++; (n < 1)--; ("a" ~ "a")++; (n is number)--; (1 && 1)--; (0 || 0)++ }`,
@@ -134,16 +137,26 @@ func c10Keys(c *Ctx, n int) []procKey {
 		methods := strings.Contains(prog, "(") && strings.Contains(prog, ".")
 		keys = append(keys, procKey{id: fmt.Sprintf("k%d", len(keys)), prog: prog, sels: sels, input: input, pollutes: pollutes, methods: methods})
 	}
-	objDocs := []string{`{"1":1,"1.0":2,"01":3,"1e0":4}`, `{"2":1,"10":2,"1a":3}`, `{"nan":1,"9":2,"10":3,"-1":4}`, `{"b":1,"a":2,"c":3}`, `[{"b":1,"a":2},{"y":[1,2],"x":{"q":1,"p":2}}]`, `{"a":"k1","b":"k2","c":{"n":1,"m":2}}`, `{"k 2":1,"a":2}`}
+	// (the last three: keys that differ only in case, in blanks, in a leading zero: ties for any comparison looser than bytes)
+	objDocs := []string{`{"id":1,"ID":2,"Id":3,"x":4,"X":5}`, `{"a b":1,"ab":2,"a  b":3," ab":4}`, `{"7":1,"07":2,"7.0":3,"+7":4}`, `{"1":1,"1.0":2,"01":3,"1e0":4}`, `{"2":1,"10":2,"1a":3}`, `{"nan":1,"9":2,"10":3,"-1":4}`, `{"b":1,"a":2,"c":3}`, `[{"b":1,"a":2},{"y":[1,2],"x":{"q":1,"p":2}}]`, `{"a":"k1","b":"k2","c":{"n":1,"m":2}}`, `{"k 2":1,"a":2}`}
 	for _, p := range c10ObjectPrograms {
 		for _, d := range objDocs {
 			add(p, nil, d, false)
 		}
 	}
 	add(`{ print $ }`, []string{"$.c", "$"}, objDocs[2], false)
+	// both zeros, formatted in whatever order the history brings them
+	for _, p := range []string{`BEGIN { x = 0; print x, [x], {a: x}; o = {}; o[x] = 1; print o }`, `BEGIN { y = 0 * (0 - 1); print y, [y], {a: y}; o = {}; o[y] = 1; print o }`,
+		`{ z = $.n * (0 - 1); print z, [z] }`, `BEGIN { printf("%v %s %f\n", 0, 0, 0); printf("%v %s %f\n", 0 * (0 - 1), 0 * (0 - 1), 0 * (0 - 1)) }`} {
+		add(p, nil, `[{"n":0},{"n":1}]`, false)
+		if strings.Contains(p, "(0 - 1)") {
+			keys[len(keys)-1].first = true
+		}
+	}
 	for _, p := range c10OrderPrograms {
 		add(p, nil, `[{"q":[1,2,3,4,5]},{"q":["a","b","c","d"]}]`, false)
 	}
+	add(c10FillProgram, nil, `[{"slot":1048576,"n":1}]`, false)
 	for _, p := range c10BuiltinAssigners {
 		add(p, nil, `[{"n":1},{"n":2}]`, false)
 	}
@@ -290,7 +303,36 @@ func checkC10(c *Ctx) {
 		order := []int{}
 		for r := 0; r < reps; r++ {
 			perm := rng.Perm(len(keys))
+			if r == 0 {
+				// the first pass of a process is in key order or in reverse key order: whichever of two related
+				// keys comes first in one process comes second in the next (first-use memos, lazily built tables)
+				for i := range perm {
+					perm[i] = i
+					if p%2 == 1 {
+						perm[i] = len(keys) - 1 - i
+					}
+				}
+			}
 			order = append(order, perm...)
+		}
+		if p%2 == 1 {
+			var pre []int
+			for i, k := range keys {
+				if k.first {
+					pre = append(pre, i)
+				}
+			}
+			order = append(pre, order...)
+		}
+		if p == 0 {
+			// one key repeated many times in one process: a budget or counter that is kept per process, not per run
+			for i, k := range keys {
+				if k.prog == c10FillProgram {
+					for r := 0; r < 20; r++ {
+						order = append(order, i)
+					}
+				}
+			}
 		}
 		hists[p].order = order
 		h := Job{Kind: "history"}
